@@ -10,12 +10,16 @@ from common import (CASES_HEADER, VERIF, Check, cbool, clist, copt, coq_eval_par
 
 IMPORTS = CASES_HEADER + ("From PV Require Import Base.CasesLib C03.ExecModel C03.ExecReplay.\n"
                           "Open Scope Z_scope.\n")
-PIMPORTS = CASES_HEADER + ("From PV Require Import Base.CasesLib C03.ExecModel C03.ProjectModel C03.ProjectReplay.\n"
+PIMPORTS = CASES_HEADER + ("From PV Require Import Base.CasesLib C03.ExecModel C03.ProjectModel C03.ProjectReplay C03.DensityModel C03.DensityReplay.\n"
                            "Open Scope Z_scope.\n")
 CORPUS = os.path.join(VERIF, "harness", "corpus", "c03.jsonl")
 
 # sizes can be scaled down for development runs on a loaded machine (default 1)
 SCALE = float(os.environ.get("C03_SCALE", "1"))
+
+# does the tree under test refuse conditioned mid-circuit measurements at validation time
+# (fixes/C03-conditioned-mid-circuit-measurement.diff)?  probed by the runner on every run
+STRICT = {"cond_meas": False}
 
 K_GET_COUNTS = "C03:get_counts:duplicate-outcome-branches"
 K_GET_COUNTS_EMPTY = "C03:get_counts:empty-outcome-tuple"
@@ -99,7 +103,7 @@ def ccase(case, o):
 
 EXEC_BODY = """
 Definition cases : list (list call * list instr * option Z * nat * observed) := %s.
-Eval vm_compute in map (fun '(tbl, prog, shots, d, obs) => compare_case tbl prog shots d obs) cases.
+Eval vm_compute in map (fun '(tbl, prog, shots, d, obs) => compare_case %s tbl prog shots d obs) cases.
 Eval vm_compute in mismatches (fun '(tbl, prog, shots, d, obs) => wf_table tbl) cases.
 """
 
@@ -449,8 +453,19 @@ def gen_det(rng):
             "shots": rng.choice([1, 3, 10, None]), "instrs": instrs, "det": True, "expected": x, "skipped_measurement": skipped}
 
 
+def cond_meas_mid(case):
+    ins = case["instrs"]
+    return any(s["k"] in MEAS and s.get("cond") for s in ins[:-1])
+
+
 def search_det(chk, case, o, stats):
     stats["det_runs"] += 1
+    if STRICT["cond_meas"] and cond_meas_mid(case):
+        # the repaired tree refuses such a program before any evolution
+        if o.get("error") != 4:
+            chk.violation("C03:%s:conditioned-mid-circuit-measurement-not-refused" % case["sim"],
+                          "a conditioned measurement that is not the last instruction was not refused with InvalidSimulation: " + str(o.get("error_text")), {"case": case})
+        return
     exp = [[v, 1] for v in case["expected"]]
     got = None
     if o.get("error") is None and "branches" in o:
@@ -610,7 +625,7 @@ def run_proj_stream(chk, gens, out, corr_broken):
                           "shots=None: weights / branch states differ from the exact projective model (state of squared norm %.12g%s, measurements %s): implementation weights %s sum to %.12g" % (
                               g["norm2"], ", PostSelectPhotons %s first" % (g["post"],) if g["post"] else "", g["parts"] if variant == "seq" else [sum(g["parts"], [])],
                               [(tuple(b["outcome"]), round(float(fr(b["freq"])), 9)) for b in ob["branches"]][:6], sum(float(fr(b["freq"])) for b in ob["branches"])),
-                          {"case": g[variant], "state": g["psi"]}, source="correspondence")
+                          {"case": g, "variant": variant}, source="correspondence")
             corr_broken.append("projective model != %s (%s measurement of %s on state %s): branches %s" % (
                 g["sim"], variant, g["parts"], [(p["v"], p["re"], p["im"]) for p in g["psi"]],
                 [(b["outcome"], float(fr(b["freq"]))) for b in ob["branches"]][:6]))
@@ -708,6 +723,103 @@ def run_seqjoint_stream(chk, reqs, out):
                nok, len({json.dumps([r["sim"], r["prefix"], r["parts"]]) for r in reqs}), kind="search",
                samples=[{"sim": reqs[0]["sim"], "parts": reqs[0]["parts"]}])
 
+
+
+# =========================================================================== density-matrix model
+def gen_dens(rng):
+    """a mixture of rational-amplitude pure states (trace not always 1) for FockSimulator, one
+    measurement (the simulator has no mid-circuit measurement), plus a split for the
+    model-internal sequential = joint evaluation"""
+    d = rng.randint(2, 3)
+    comps = []
+    for _ in range(rng.randint(1, 3)):
+        k = rng.randint(1, 2)
+        vs = set()
+        while len(vs) < k:
+            v = [0] * d
+            for _ in range(rng.randint(0, 2)):
+                v[rng.randrange(d)] += 1
+            vs.add(tuple(v))
+        mags = rng.choice(AMPS[k])
+        amps = []
+        for v, (mn, md) in zip(sorted(vs), mags):
+            (cn, cd), (sn, sd) = rng.choice(PHASES)
+            amps.append((v, Fraction(mn * cn, md * cd), Fraction(mn * sn, md * sd)))
+        comps.append((Fraction(*rng.choice([(1, 2), (1, 4), (1, 3), (3, 4), (1, 1)])), amps))
+    ent = {}
+    for q, amps in comps:
+        for (k, kr, ki) in amps:
+            for (b, br, bi) in amps:     # q * a_k * conj(a_b)
+                re = q * (kr * br + ki * bi)
+                im = q * (ki * br - kr * bi)
+                e = ent.get((k, b), (Fraction(0), Fraction(0)))
+                ent[(k, b)] = (e[0] + re, e[1] + im)
+    rho = [{"k": list(k), "b": list(b), "re": [re.numerator, re.denominator], "im": [im.numerator, im.denominator]}
+           for (k, b), (re, im) in ent.items() if re != 0 or im != 0]
+    total = max(sum(e["k"]) for e in rho)
+    cutoff = total + 1 + rng.randint(0, 1)
+    modes = rng.sample(range(d), rng.randint(1, d))
+    if rng.random() < 0.25:
+        modes = sorted(modes)
+    prep = [{"k": "DM", "modes": [], "args": {"ket": e["k"], "bra": e["b"], "re": float(Fraction(*e["re"])), "im": float(Fraction(*e["im"]))}} for e in rho]
+    split = rng.randint(1, len(modes) - 1) if len(modes) >= 2 else None
+    return {"sim": "fock", "d": d, "cutoff": cutoff, "rho": rho, "modes": modes, "split": split,
+            "trace": float(sum(Fraction(*e["re"]) for e in rho if e["k"] == e["b"])),
+            "run": {"sim": "fock", "d": d, "cutoff": cutoff, "instrs": prep + [{"k": "PNM", "modes": modes, "args": {}}], "shots": None}}
+
+
+def crho(rho):
+    return clist(rho, lambda e: "((%s, %s), (%s, %s))" % (clist(e["k"], cnat), clist(e["b"], cnat), cq(e["re"]), cq(e["im"])))
+
+
+def codbranches(brs):
+    def one(b):
+        ent = "[]" if b["state"] is None else clist(b["state"]["dentries"], lambda e: "((%s, %s), (%s, %s))" % (clist(e[0], cnat), clist(e[1], cnat), cq(e[2]), cq(e[3])))
+        return "(%s, %s, %s, %s)" % (clist(b["outcome"], cnat), cq(b["freq"]), copt(b["d"], cnat), ent)
+    return clist(brs, one)
+
+
+DENS_BODY = """
+Definition dcases : list (nat * qdstate * list (list nat) * list odbranch) := %s.
+Eval vm_compute in mismatches (fun '(d, rho, Ls, obs) => dens_case_ok d rho Ls obs) dcases.
+Definition dsj : list (nat * qdstate * list nat * list nat) := %s.
+Eval vm_compute in mismatches (fun '(d, rho, L1, L2) => dens_seq_joint_ok d rho L1 L2) dsj.
+"""
+
+
+def run_dens_stream(chk, gens, out, corr_broken):
+    items, owners, sj = [], [], []
+    for g, o in zip(gens, out):
+        if "error" in o:
+            chk.violation("C03:fock:exact-measurement-raises", "exact (shots=None) measurement raised: " + o["error"], {"case": g["run"]})
+            continue
+        items.append("(%s, %s, %s, %s)" % (cnat(g["d"]), crho(g["rho"]), clist([g["modes"]], lambda L: clist(L, cnat)), codbranches(o["branches"])))
+        owners.append((g, o))
+        if g["split"]:
+            sj.append("(%s, %s, %s, %s)" % (cnat(g["d"]), crho(g["rho"]), clist(g["modes"][:g["split"]], cnat), clist(g["modes"][g["split"]:], cnat)))
+        sw = sum(float(fr(b["freq"])) for b in o["branches"])
+        if abs(sw - g["trace"]) > 1e-9 * (1 + abs(g["trace"])):
+            chk.violation("C03:fock:exact-weights-sum", "shots=None: the branch weights sum to %r, the trace of the measured density matrix is %r" % (sw, g["trace"]), {"case": g["run"]})
+    bodies = []
+    chunk = 60
+    for i in range(0, len(items), chunk):
+        bodies.append(PIMPORTS + DENS_BODY % ("[" + ";\n".join(items[i:i + chunk]) + "]", "[" + ";\n".join(sj if i == 0 else []) + "]"))
+    for j, o in enumerate(coq_eval_parallel("c03_dens", bodies, jobs=4)):
+        g2 = parse_coq_list(o)
+        for k in g2[0]:
+            g, ob = owners[j * chunk + k]
+            chk.violation("C03:fock:exact-branches-vs-density-model",
+                          "shots=None: weights / branch density matrices differ from the exact density-matrix model (trace %.12g, measured modes %s): implementation weights %s" % (
+                              g["trace"], g["modes"], [(tuple(b["outcome"]), round(float(fr(b["freq"])), 9)) for b in ob["branches"]][:6]),
+                          {"case": g["run"]}, source="correspondence")
+            corr_broken.append("density-matrix model != FockSimulator (modes %s, %d entries)" % (g["modes"], len(g["rho"])))
+        for k in g2[1]:
+            corr_broken.append("density-matrix model: sequential != joint (evaluation of the model itself)")
+    chk.stream("density-matrix model (exact Gaussian-rational entries, trace not always 1) vs FockSimulator with shots=None: outcomes, weights, "
+               "every entry of every branch density matrix, weight sum = trace",
+               len(items), len({json.dumps([g["rho"], g["modes"]]) for g in gens if len(g["rho"]) >= 2}),
+               samples=[{"entries": len(gens[0]["rho"]), "modes": gens[0]["modes"], "trace": gens[0]["trace"]}] if gens else None,
+               note="%d splits also evaluated inside the model (sequential = joint)" % len(sj))
 
 # =========================================================================== weights vs the state's own norm
 K_WEIGHTS_NORM = "C03:%s:exact-weights-vs-state-probabilities"
@@ -812,6 +924,53 @@ def run_norm_stream(chk, reqs, out):
                note="%d of them with |norm - 1| > 1e-6; %d passive cases not supported by the simulator (raised)" % (nunnorm, unsupported),
                samples=[{"sim": reqs[0]["sim"], "prefix": [(s["k"], s.get("modes")) for s in reqs[0]["prefix"]], "modes": reqs[0]["modes"]}] if reqs else None)
 
+
+# =========================================================================== replay
+def replay(chk: Check, path):
+    """./check C03 --replay <file>: re-runs every witness of a replay file (whatever stream it
+    came from) on the current tree through the same analysis, and reports what still fails"""
+    data = json.load(open(path))
+    cases, pgens, sj, norm, seen = [], [], [], [], set()
+    for v in data.get("violations", []):
+        w = v.get("witness") or {}
+        c = w.get("case") if isinstance(w, dict) else None
+        if not isinstance(c, dict):
+            continue
+        key = json.dumps(c, sort_keys=True)
+        if key in seen:
+            continue
+        seen.add(key)
+        if "psi" in c and "steps_seq" in c:
+            pgens.append(c)
+        elif "prefix" in c and "joint" in c:
+            sj.append(c)
+        elif "prefix" in c and "modes" in c:
+            norm.append(c)
+        elif "instrs" in c:
+            c = dict(c)
+            c.setdefault("seed", 0)
+            cases.append(c)
+    out = run_impl("c03_impl.py", {"cases": cases, "proj": proj_requests(pgens), "seqjoint": sj, "norm": norm}, timeout=3000)
+    corr_broken = []
+    STRICT["cond_meas"] = bool(out.get("strict_cond_meas"))
+    stats = {k: 0 for k in ("ok_runs", "counts_runs", "dup_outcome_runs", "outcome_map_lossy", "build_errors",
+                            "counts_overwrite_seen", "modes_not_restored", "det_runs", "cond_meas_failures")}
+    chk.proof_broken = []
+    chk.coverage.update({"obligations": 0, "discharged": 0})
+    if cases:
+        run_exec_stream(chk, list(zip(cases, out["cases"])), corr_broken, stats)
+        chk.stream("replayed programs (executor tie + accounting search)", len(cases), len(cases))
+    if pgens:
+        run_proj_stream(chk, pgens, out["proj"], corr_broken)
+    if sj:
+        run_seqjoint_stream(chk, sj, out["seqjoint"])
+    if norm:
+        run_norm_stream(chk, norm, out["norm"])
+    print("replayed %d witnesses of %s on %s: %d still fail, %d match an open known finding" % (
+        len(seen), path, out["piquasso_file"], len(chk.violations), len(chk.known_hits)))
+    chk.finish(rule="witnesses of the replay file", explanation="replay of %s (proof obligations are not rebuilt by a replay)" % path,
+               correspondence_broken=corr_broken)
+
 # =========================================================================== main
 def gen_exec_cases(chk, sims, n_per_sim, corpus_cases):
     rng = chk.rng
@@ -833,7 +992,7 @@ def run_exec_stream(chk, pairs, corr_broken, stats):
     chunk = 40
     for i in range(0, len(built), chunk):
         part = built[i:i + chunk]
-        bodies.append(IMPORTS + EXEC_BODY % clist(part, lambda t: ccase(t[0], t[1])))
+        bodies.append(IMPORTS + EXEC_BODY % (clist(part, lambda t: ccase(t[0], t[1])), cbool(STRICT["cond_meas"])))
     res = coq_eval_parallel("c03_exec", bodies, jobs=4)
     codes = []
     for j, out in enumerate(res):
@@ -885,12 +1044,15 @@ def run(chk: Check):
     pgens = [gen_proj(chk.rng) for _ in range(max(4, int((1500 if T else 100) * SCALE)))]
     sjreqs = gen_seqjoint(chk, max(3, int((400 if T else 40) * SCALE)))
     nreqs = gen_norm(chk.rng, max(6, int((1200 if T else 120) * SCALE)))
-    jobs = [{"cases": cases[0::2]}, {"cases": cases[1::2]}, {"proj": proj_requests(pgens)}, {"seqjoint": sjreqs, "norm": nreqs}]
+    dgens = [gen_dens(chk.rng) for _ in range(max(4, int((600 if T else 50) * SCALE)))]
+    jobs = [{"cases": cases[0::2]}, {"cases": cases[1::2]}, {"proj": proj_requests(pgens) + [g["run"] for g in dgens]}, {"seqjoint": sjreqs, "norm": nreqs}]
     from concurrent.futures import ThreadPoolExecutor
     with ThreadPoolExecutor(max_workers=4) as ex:
         outs = list(ex.map(lambda j: run_impl("c03_impl.py", j, timeout=6000), jobs))
     pairs = list(zip(cases[0::2], outs[0]["cases"])) + list(zip(cases[1::2], outs[1]["cases"]))
     chk.notes.append("implementation imported from %s" % outs[0]["piquasso_file"])
+    STRICT["cond_meas"] = bool(outs[0].get("strict_cond_meas"))
+    chk.notes.append("tree refuses conditioned mid-circuit measurements at validation time: %s" % STRICT["cond_meas"])
     built, codes = run_exec_stream(chk, pairs, corr_broken, stats)
     distinct = len({structure_key(c) for c, o in built if nontrivial(c, o)})
     errs = sum(1 for c, o in built if o.get("error") is not None)
@@ -909,7 +1071,8 @@ def run(chk: Check):
                stats["det_runs"], len({structure_key(c) for c, o in built if c.get("det")}), kind="search",
                note="%d programs with a skipped conditioned measurement gave a wrong sample" % stats["cond_meas_failures"])
 
-    run_proj_stream(chk, pgens, outs[2]["proj"], corr_broken)
+    run_proj_stream(chk, pgens, outs[2]["proj"][:2 * len(pgens)], corr_broken)
+    run_dens_stream(chk, dgens, outs[2]["proj"][2 * len(pgens):], corr_broken)
     run_seqjoint_stream(chk, sjreqs, outs[3]["seqjoint"])
     run_norm_stream(chk, nreqs, outs[3]["norm"])
 
